@@ -8,7 +8,7 @@ from .model import Program, AnalysisError
 from .interp import Interp, normalize_chunks
 from .values import *    # noqa
 from .strtree import *   # noqa
-from .symeval_ops import DerivV, NTV, SJoin
+from .symeval_ops import DerivV, NTV, SJoin, PyObjV
 
 SPEC_DIR = os.path.join(os.path.dirname(os.path.abspath(__file__)), "specs")
 
@@ -604,3 +604,125 @@ def set_cardinality(setkey):
             n = ep.app(("len", doms[0][1]), [])
             return n * (n + ep.const(1)) / ep.const(2)
     return None
+
+
+# ---------------------------------------------------------------------------------------------------------------------
+# the command line entry point, run as a whole
+# ---------------------------------------------------------------------------------------------------------------------
+def console_entry(P, script="potable"):
+    """the function setup.py registers as console script (the public anchor of every command-line obligation)"""
+    import re as _re
+    txt = open(os.path.join(P.repo, "setup.py"), encoding="utf-8").read()
+    m = _re.search(r"['\"]\s*%s\s*=\s*([\w.]+)\s*:\s*(\w+)\s*['\"]" % _re.escape(script), txt)
+    if not m:
+        raise AnalysisError("setup.py registers no console script %r" % script)
+    return P.func(m.group(1), m.group(2))
+
+
+class ArgParserModel(object):
+    """argparse.ArgumentParser as far as the package uses it: add_argument declarations give destinations and defaults
+    (argparse's rules: store_true -> False, store_false -> True, default= honoured, otherwise None); groups share the
+    parser's namespace; parse_args() returns the options of the scenario over those defaults; error() exits."""
+    def __init__(self, given):
+        self.given = given
+        self.defaults = {}
+        self.errors = []
+
+    def m_add_argument(self, I, args, kwargs):
+        flags = [a.v for a in args if isinstance(a, Const) and isinstance(a.v, str)]
+        if not flags or len(flags) != len(args):
+            raise AnalysisError("add_argument with non-literal flags")
+        kw = dict(kwargs)
+        for k in ("help", "metavar", "type", "nargs", "required", "choices"):
+            kw.pop(k, None)
+        if "dest" in kw:
+            dest = kw.pop("dest").v
+        else:
+            longs = [f for f in flags if f.startswith("--")]
+            dest = (longs[0][2:] if longs else flags[0].lstrip("-")).replace("-", "_")
+        default = NONE
+        act = kw.pop("action", None)
+        if act is not None:
+            if not isinstance(act, Const) or act.v not in ("store_true", "store_false", "store", "append"):
+                raise AnalysisError("add_argument action %r is not modelled" % (act,))
+            if act.v == "store_true":
+                default = FALSE
+            elif act.v == "store_false":
+                default = TRUE
+        if "default" in kw:
+            default = kw.pop("default")
+        if kw:
+            raise AnalysisError("add_argument keyword(s) %s are not modelled" % sorted(kw))
+        self.defaults[dest] = default
+        return NONE
+
+    def m_add_argument_group(self, I, args, kwargs):
+        _ = (args, kwargs)       # title / description: help text only
+        return PyObjV(self)
+
+    def m_add_mutually_exclusive_group(self, I, args, kwargs):
+        _ = (args, kwargs)       # exclusivity restricts which command lines parse, not what a parsed one means
+        return PyObjV(self)
+
+    def m_set_defaults(self, I, args, kwargs):
+        self.defaults.update(kwargs)
+        return NONE
+
+    def m_parse_args(self, I, args, kwargs):
+        given = args[0] if args else kwargs.get("args", NONE)
+        if not (isinstance(given, Const) and given.v is None):
+            raise AnalysisError("parse_args() of an explicit argument list is not modelled")
+        unknown = set(self.given) - set(self.defaults)
+        if unknown:
+            raise AnalysisError("the scenario sets option(s) %s that the parser does not declare" % sorted(unknown))
+        return PyObjV(ArgsModel(self.defaults, self.given))
+
+    def m_error(self, I, args, kwargs):
+        self.errors.append(args[0] if args else NONE)
+        from .symeval import RaiseSignal
+        from .symeval_ops import ExcV
+        raise RaiseSignal(ExcV(ExtV("builtins.SystemExit"), [Num(ep.const(2))]), None)
+
+
+class PotableRun(object):
+    pass
+
+
+def run_potable(P, given, hooks=None, make=None, watch=None):
+    """evaluate the registered console entry point on the command line described by {dest: value};
+    returns an object with .parser (ArgParserModel: .errors), .exit (exit code value or None), .raised (escaping exception
+    value or None) and .interp"""
+    from .symeval import RaiseSignal
+    from .symeval_ops import ExcV
+    J = (make or make_interp)(P)
+    parser = ArgParserModel(given)
+    J.x_argparse_ArgumentParser = lambda args, kwargs, node, env: PyObjV(parser)
+    J.x_argparse_FileType = lambda args, kwargs, node, env: Opaque(("argparse.FileType",) + tuple(a.key() for a in args))
+
+    def _exit(args, kwargs, node, env):
+        raise RaiseSignal(ExcV(ExtV("builtins.SystemExit"), list(args)), node)
+    J.x_sys_exit = _exit
+    for k, h in (hooks or {}).items():
+        J.hooks[k] = h
+    r = PotableRun()
+    r.parser, r.interp, r.exit, r.raised = parser, J, None, None
+    r.receivers = []
+    if watch is not None:
+        # which functions of the package receive the watched value as an argument
+        inner = J.call_function
+
+        def traced(fv, args, kwargs, node):
+            vals = [a for a in args if not isinstance(a, tuple)] + list(kwargs.values())
+            if any(hasattr(a, "key") and a.key() == watch.key() for a in vals) and fv.fi not in r.receivers:
+                r.receivers.append(fv.fi)
+            return inner(fv, args, kwargs, node)
+        J.call_function = traced
+    try:
+        J.run(console_entry(P), [])
+    except RaiseSignal as e:
+        if isinstance(e.exc, ExcV) and isinstance(e.exc.cls, ExtV) and e.exc.cls.name == "builtins.SystemExit":
+            r.exit = e.exc.args[0] if e.exc.args else NONE
+        else:
+            r.raised = e.exc
+            r.signal = e
+    return r
